@@ -11,6 +11,23 @@ use crate::simfs::Image;
 
 pub const DB_PATH: &str = "/db";
 
+static BASE: parking_lot::Mutex<Option<DbOptions>> = parking_lot::const_mutex(None);
+
+/// `DbOptions::default()` builds an 8 Mi-entry block cache whose table alone costs ~16 MiB of
+/// page faults; one is built per case and shared (by `Arc`) by every database the case opens.
+/// Cache keys carry a per-table-open partition id, so sharing cannot serve stale blocks.
+pub fn new_case() {
+    *BASE.lock() = Some(DbOptions::default());
+}
+
+fn base() -> DbOptions {
+    let mut slot = BASE.lock();
+    if slot.is_none() {
+        *slot = Some(DbOptions::default());
+    }
+    slot.as_ref().unwrap().clone()
+}
+
 pub fn options(fs: Arc<dyn FileSystem>, path: &str, cfg: &Config) -> DbOptions {
     DbOptions {
         db_path: path.to_string(),
@@ -21,7 +38,7 @@ pub fn options(fs: Arc<dyn FileSystem>, path: &str, cfg: &Config) -> DbOptions {
         create_if_missing: true,
         error_if_exists: false,
         reuse_log_files: cfg.reuse,
-        ..DbOptions::default()
+        ..base()
     }
 }
 
